@@ -38,7 +38,7 @@ func expectedCause(o *psOutcome, cur, base string, pc progConsts) (string, bool)
 // ---- C05.task ----
 func ruleC05Task(cx *Ctx) {
 	const rule = "C05.task"
-	cx.R.Rule(rule, 20, "every table change yields exactly one matching replay task (or, without maintenance, one direct notification): removed node -> delete task, fresh node over nothing -> add task, fresh node over a predecessor -> update task carrying both; unchanged table -> nothing; a node leaving the table is retired exactly once inside the computation")
+	cx.R.Rule(rule, 6, "every table change yields exactly one matching replay task (or, without maintenance, one direct notification): removed node -> delete task, fresh node over nothing -> add task, fresh node over a predecessor -> update task carrying both; unchanged table -> nothing; a node leaving the table is retired exactly once inside the computation")
 	pc := cx.consts(rule)
 	if !pc.ok {
 		return
@@ -50,18 +50,22 @@ func ruleC05Task(cx *Ctx) {
 		}
 		a := newAgg(cx, rule, funcName(r.fn), cx.P.Pos(r.fn.Pos()))
 		for _, o := range r.outs {
-			if o.Cut {
+			if o.Cut && spec.kind != "deleteNode" {
 				continue
 			}
-			for _, c := range tableComps(o) {
+			tcs := tableComps(o)
+			for ci, c := range tcs {
 				if !c.closed {
 					continue
 				}
+				if o.Cut && ci == len(tcs)-1 {
+					continue // the continuation of the last computation was cut by the loop bound
+				}
 				eff := effectOf(c)
 				curNil, nilKnown := predOf(o, "IsNil("+c.cur+")")
-				tasks := eventsOf(o, "Task", c.exitIdx, len(o.S.trace))
-				enq := append(eventsOf(o, "Enqueue", c.exitIdx, len(o.S.trace)), eventsOf(o, "RunTask", c.exitIdx, len(o.S.trace))...)
-				async := eventsOf(o, "AsyncNotify", c.exitIdx, len(o.S.trace))
+				tasks := eventsOf(o, "Task", c.exitIdx, c.next)
+				enq := append(eventsOf(o, "Enqueue", c.exitIdx, c.next), eventsOf(o, "RunTask", c.exitIdx, c.next)...)
+				async := eventsOf(o, "AsyncNotify", c.exitIdx, c.next)
 				wm, wmKnown := flagOf(o, "withMaintenance")
 				name := spec.name
 				if o.Panic {
@@ -145,7 +149,7 @@ func ruleC05Task(cx *Ctx) {
 // ---- C06.atomic / C06.cause ----
 func ruleC06Atomic(cx *Ctx) {
 	const rule = "C06.atomic"
-	cx.R.Rule(rule, 16, "inside the table computation that unlinks a node exactly one atomic deletion report is emitted, carrying that node's key and value and the truthful cause (Expiration if it was expired, else Replacement / Invalidation / the eviction cause); none when the table is unchanged; the replay task / direct notification carries the same cause")
+	cx.R.Rule(rule, 5, "inside the table computation that unlinks a node exactly one atomic deletion report is emitted, carrying that node's key and value and the truthful cause (Expiration if it was expired, else Replacement / Invalidation / the eviction cause); none when the table is unchanged; the replay task / direct notification carries the same cause")
 	pc := cx.consts(rule)
 	if !pc.ok {
 		return
@@ -202,7 +206,7 @@ func ruleC06Atomic(cx *Ctx) {
 				a.check(name+" "+eff+": one atomic report, truthful cause", ok, "exactly one atomic report with the removed node's key, value and cause", detail, o)
 				// same cause in the task / direct notification
 				if wm, k := flagOf(o, "withMaintenance"); k && wm && len(ats) == 1 && spec.kind != "evict" {
-					for _, t := range eventsOf(o, "Task", c.exitIdx, len(o.S.trace)) {
+					for _, t := range eventsOf(o, "Task", c.exitIdx, c.next) {
 						if t.Args[0] == c.cur || t.Args[1] == c.cur {
 							a.check(name+" "+eff+": task cause = atomic cause", t.Args[3] == ats[0].Args[2], "the deferred report carries the same cause as the atomic one", "task cause "+t.Args[3]+" vs atomic "+ats[0].Args[2], o)
 						}
@@ -217,7 +221,7 @@ func ruleC06Atomic(cx *Ctx) {
 // ---- C09.clear ----
 func ruleC09Clear(cx *Ctx) {
 	const rule = "C09.clear"
-	cx.R.Rule(rule, 8, "every table computation that changes the mapping clears the key's in-flight load record (singleflight.delete) inside the same computation - the load installer instead proves the record is still its own; the eviction closure clears on all paths")
+	cx.R.Rule(rule, 2, "every table computation that changes the mapping clears the key's in-flight load record (singleflight.delete) inside the same computation - the load installer instead proves the record is still its own; the eviction closure clears on all paths")
 	specs := append(writerSpecs(), mechTable[1])
 	for _, spec := range specs {
 		r := cx.runOp(rule, spec)
@@ -265,7 +269,7 @@ func fakeCall(o *psOutcome) bool {
 
 // ---- C09.guard / C10.table ----
 func ruleC10Table(cx *Ctx, rule string) {
-	cx.R.Rule(rule, 5, "load installer decision table over (own record, not-found, error): own & not-found -> remove; error -> keep; not own -> keep; own & found & no error -> install the loaded value")
+	cx.R.Rule(rule, 1, "load installer decision table over (own record, not-found, error): own & not-found -> remove; error -> keep; not own -> keep; own & found & no error -> install the loaded value")
 	r := cx.runOp(rule, mechTable[0])
 	if r == nil {
 		return
@@ -330,11 +334,11 @@ func ruleC09Guard(cx *Ctx)    { ruleC10Table(cx, "C09.guard") }
 // ---- C12.hook / C12.sat / C12.inherit ----
 func ruleC12Hooks(cx *Ctx) {
 	const rule = "C12.hook"
-	cx.R.Rule(rule, 12, "calculator hooks are selected by the pre-state: install over absent/expired -> ExpireAfterCreate / RefreshAfterCreate; install over a live entry -> ExpireAfterUpdate / RefreshAfterUpdate (RefreshAfterReload for a reload) with the live old value; failed reload -> RefreshAfterReloadFailure and no expiry hook; an expired predecessor's value is never passed as old value; counted reads consult ExpireAfterRead once")
+	cx.R.Rule(rule, 4, "calculator hooks are selected by the pre-state: install over absent/expired -> ExpireAfterCreate / RefreshAfterCreate; install over a live entry -> ExpireAfterUpdate / RefreshAfterUpdate (RefreshAfterReload for a reload) with the live old value; failed reload -> RefreshAfterReloadFailure and no expiry hook; an expired predecessor's value is never passed as old value; counted reads consult ExpireAfterRead once")
 	const ruleSat = "C12.sat"
-	cx.R.Rule(ruleSat, 6, "every deadline stored is satadd(operation clock sample, duration returned by the hook / API argument on that path)")
+	cx.R.Rule(ruleSat, 2, "every deadline stored is satadd(operation clock sample, duration returned by the hook / API argument on that path)")
 	const ruleInh = "C12.inherit"
-	cx.R.Rule(ruleInh, 4, "a replacing node is created with its predecessor's deadlines (under the matching flags) before the calculators are consulted; a node without predecessor starts unreachable")
+	cx.R.Rule(ruleInh, 1, "a replacing node is created with its predecessor's deadlines (under the matching flags) before the calculators are consulted; a node without predecessor starts unreachable")
 	specs := append(append([]opSpec{}, opTable...), mechTable[0])
 	for _, spec := range specs {
 		r := cx.runOp(rule, spec)
@@ -498,7 +502,7 @@ func ruleC12Hooks(cx *Ctx) {
 // ---- C20.lookup ----
 func ruleC20Lookup(cx *Ctx) {
 	const rule = "C20.lookup"
-	cx.R.Rule(rule, 14, "per operation the number of hit/miss records on every returning path is the documented one (1 for GetIfPresent, GetEntry, Compute, ComputeIfAbsent, ComputeIfPresent; 0 for quiet reads, Set*, Invalidate and the deadline setters), each with count 1, and it is a hit exactly when the looked-up entry is live on that path")
+	cx.R.Rule(rule, 4, "per operation the number of hit/miss records on every returning path is the documented one (1 for GetIfPresent, GetEntry, Compute, ComputeIfAbsent, ComputeIfPresent; 0 for quiet reads, Set*, Invalidate and the deadline setters), each with count 1, and it is a hit exactly when the looked-up entry is live on that path")
 	want := map[string]int{"get": 1, "getEntry": 1, "compute": 1, "computeIfAbsent": 1, "computeIfPresent": 1,
 		"getQuiet": 0, "set": 0, "setIfAbsent": 0, "invalidate": 0, "setExp": 0, "setRefr": 0}
 	for _, spec := range opTable {
